@@ -18,7 +18,7 @@ func init() {
 		ID: "C13",
 		Rule: "calculators vs execution, side by side: Shape.S and AP.S vs Dense.Slice over shapes of rank 1-4 (dims<=5) x the complete per-axis argument set of C02 (full cross product for rank<=2, each-choice + sampled above); Shape.Repeat vs Dense.Repeat over every axis (incl. AllAxes and out-of-range) x uniform/per-element/wrong-length counts; Shape.Concat vs Dense.Concat over fitting and misfitting operand shapes; AP.T vs Dense.T over every permutation and invalid axes lists (repeated, out of range, wrong arity): the predicted shape must equal the produced one and both must fail on exactly the same inputs. " +
 			"Reshape: every ordered factorisation of the size (plus unequal sizes) on {C,F,Fconv,T,S,SS,MS} sources: unequal sizes must be refused; a success must preserve the flat element sequence in the tensor's own data order (a lazily transposed tensor: its logical row-major sequence) and never change the elements; only a non-contiguous view may be refused. " +
-			"Metadata invariant: size = product of shape and all addressed storage offsets distinct and in bounds, evaluated on every tensor harvested from a reduced replay of the other checks' generators (operands of all 11 layouts and results of every operation family in every mode). distinct_nontrivial counts distinct (calculator, argument class) / (reshape source, factorisation) / (harvested producer, layout) keys.",
+			"Metadata invariant: size = product of shape and all addressed storage offsets distinct and in bounds, evaluated on every tensor harvested from a reduced replay of the other checks' generators (operands of all 11 layouts and results of every operation family in every mode) and, in the harvest/* groups, on every operand built and every tensor read back while the workloads of C01-C04, C06-C12, C15 and C16 are replayed with their own verdicts discarded (quick: every 6th group of each; thorough: all of them). distinct_nontrivial counts distinct (calculator, argument class) / (reshape source, factorisation) / (harvested producer, layout) keys.",
 		Assume: []string{"Shape.Eq's soft vector equality is not used: predicted and produced shapes are compared dimension by dimension"},
 		Groups: c13Groups,
 	})
@@ -43,7 +43,61 @@ func c13Groups(tier string) []core.Group {
 		lay := lay
 		gs = append(gs, core.Group{Key: "invariant/" + lay, Run: func(c *core.Ctx) { c13Harvest(c, lay) }})
 	}
+	// the workloads of the other checks, replayed with their own verdicts discarded: the invariant is evaluated on every
+	// operand their factory builds and on every tensor they read back (quick: every 6th group of each, at their quick size;
+	// thorough: every group at their quick size)
+	every := 6
+	if tier == "thorough" {
+		every = 1
+	}
+	for _, pid := range c13HarvestFrom {
+		p := Get(pid)
+		if p == nil {
+			continue
+		}
+		for gi, g := range p.Groups("quick") {
+			if gi%every != 0 {
+				continue
+			}
+			pid, g := pid, g
+			gs = append(gs, core.Group{Key: "harvest/" + pid + "/" + g.Key, Run: func(c *core.Ctx) { c13HarvestGroup(c, pid, g) }})
+		}
+	}
 	return gs
+}
+
+// c13HarvestFrom names the checks whose workloads are replayed for the metadata invariant (single-process, tensor-producing ones).
+var c13HarvestFrom = []string{"C01", "C02", "C03", "C04", "C06", "C07", "C08", "C09", "C10", "C11", "C12", "C15", "C16"}
+
+func c13HarvestGroup(c *core.Ctx, pid string, g core.Group) {
+	seen := 0
+	bad := map[string]bool{}
+	gen.OnTensor = func(d *tensor.Dense, role string) {
+		seen++
+		var s string
+		if p, msg := core.Catch(func() { s = c13Invariant(d) }); p {
+			s = "panic:" + msg
+		}
+		if s != "" {
+			sig := core.Sig("invariant", "harvest", pid, strings.SplitN(role, ":", 2)[0], s)
+			if !bad[sig+role] {
+				bad[sig+role] = true
+				c.Violation(sig, "harvest/"+pid+"/"+g.Key, map[string]interface{}{"replayed_check": pid, "group": g.Key, "role": role},
+					"distinct in-bounds offsets, size=prod(shape)", fmt.Sprint(s, " shape ", d.Shape(), " strides ", d.Strides(), " datasize ", d.DataSize()))
+			}
+		}
+	}
+	defer func() { gen.OnTensor = nil }()
+	sub := core.NewMutedCtx(c, pid, g.Key)
+	p, msg := core.Catch(func() { g.Run(sub) })
+	gen.OnTensor = nil
+	if p {
+		c.Inconclusive("harvest-replay-panicked:" + pid)
+		_ = msg
+		return
+	}
+	c.EvalN(core.Sig("invariant", "harvest", pid), true, seen)
+	c.Extra("harvested_tensors:"+pid, seen)
 }
 
 func shapeOf(t tensor.Tensor) []int {
@@ -238,7 +292,9 @@ func c13Repeat(c *core.Ctx) {
 				}
 				var ps tensor.Shape
 				var perr error
-				pp, pmsg := core.Catch(func() { ps, _, _, perr = tensor.Shape(model.CopyInts(shape)).Repeat(axis, append([]int(nil), reps...)...) })
+				pp, pmsg := core.Catch(func() {
+					ps, _, _, perr = tensor.Shape(model.CopyInts(shape)).Repeat(axis, append([]int(nil), reps...)...)
+				})
 				if !pp {
 					pmsg = ""
 				}
